@@ -53,6 +53,12 @@ def run_pipe_correspondence(ctx, scs, builtin, label="pipe"):
 
 def pipeline_check(ctx, prop_file, focus, n=None):
     """Shared driver.  focus: which scenarios / clauses belong to this property."""
+    for a in ("pipeline model: swc comment capture/attachment, byte offsets and line breaks of the file are inputs of the model; the generator's own layout knowledge supplies them, so they are re-validated against the implementation on every run",
+              "pipeline model: the rules' own output is an input (raw diagnostics = predicted no-debugger diagnostics + diagnostics injected through the external-linter callback)",
+              "pipeline model: comment texts contain no line break (true of JS line comments; the parser model is nevertheless faithful for texts with line breaks and is compared on such texts through the parse_ignore_comment hook)",
+              "HashMap iteration order modelled as an arbitrary permutation oracle (identity and reversal are executed; independence is a theorem)"):
+        if a not in ctx.assumptions:
+            ctx.assumptions.append(a)
     proof_ok = ctx.proof_stage(prop_file, MODEL_TARGETS)
     if not build_pipe_model(ctx):
         return
